@@ -402,3 +402,102 @@ def FLOATED(x: object) -> object:
     if isinstance(x, str) and f_str_parses(x):
         return f_of_str(x)
     return x
+
+
+# --------------------------------------------------------- integers <-> bytes
+@opaque
+def int_to_bytes_little(x: int, n: int) -> bytes:
+    return x.to_bytes(n, "little")
+
+
+@opaque
+def int_to_bytes_big(x: int, n: int) -> bytes:
+    return x.to_bytes(n, "big")
+
+
+@opaque
+def int_to_bytes_signed_big(x: int, n: int) -> bytes:
+    return x.to_bytes(n, "big", signed=True)
+
+
+@opaque
+def int_to_bytes_signed_little(x: int, n: int) -> bytes:
+    return x.to_bytes(n, "little", signed=True)
+
+
+@opaque
+def bit_length(x: int) -> int:
+    return x.bit_length()
+
+
+# ------------------------------------------------- CRC-64-AVRO (C14), 64-bit vectors
+EMPTY64 = 0xC15D213AA4D7A795
+
+
+@spec
+def STEP1(fp: "bv64") -> "bv64":
+    """one step of the polynomial division: shift right, xor the polynomial if a 1 fell out"""
+    if fp & 1 != 0:
+        return (fp >> 1) ^ EMPTY64
+    return fp >> 1
+
+
+@spec
+def STEP8(fp: "bv64") -> "bv64":
+    return STEP1(STEP1(STEP1(STEP1(STEP1(STEP1(STEP1(STEP1(fp))))))))
+
+
+@spec
+def RABIN(bs: bytes, hi: int) -> "bv64":
+    """the specification's 64-bit Rabin fingerprint of bs[:hi]: start from EMPTY64; for each
+    byte xor it into the low bits and divide eight times"""
+    if hi <= 0:
+        return EMPTY64
+    return STEP8(RABIN(bs, hi - 1) ^ bs[hi - 1])
+
+
+@spec
+def HEX_LE8(v: "bv64") -> str:
+    """sixteen hex digits, little-endian byte order"""
+    return hex_of(int_to_bytes_little(bv_to_int(v), 8))
+
+
+def bv_to_int(v):
+    return v
+
+
+@opaque
+def HASH_HEX(alg: str, data: bytes) -> str:
+    """hex digest of `data` under the hashlib algorithm `alg` (assumed external)"""
+    import hashlib
+    return hashlib.new(alg, data).hexdigest()
+
+
+JAVA_DIGEST_NAMES = {"SHA-256": "sha256", "MD5": "md5"}
+
+
+@spec
+def FINGERPRINT(text: str, alg: str) -> str:
+    """C14: CRC-64-AVRO is the Rabin fingerprint of the UTF-8 bytes, sixteen hex digits
+    little-endian; every other algorithm is that hashlib digest of the UTF-8 bytes, with the
+    Java spellings SHA-256 and MD5 mapped to sha256 and md5"""
+    if alg == "CRC-64-AVRO":
+        return HEX_LE8(RABIN(utf8(text), len(utf8(text))))
+    if alg == "SHA-256":
+        return HASH_HEX("sha256", utf8(text))
+    if alg == "MD5":
+        return HASH_HEX("md5", utf8(text))
+    return HASH_HEX(alg, utf8(text))
+
+
+@spec
+def ADVERTISED(alg: str) -> bool:
+    """the advertised algorithm names: hashlib's guaranteed algorithms, the two Java
+    spellings and CRC-64-AVRO"""
+    return HASHLIB_GUARANTEED(alg) or alg == "SHA-256" or alg == "MD5" or alg == "CRC-64-AVRO"
+
+
+@opaque
+def HASHLIB_GUARANTEED(alg: str) -> bool:
+    import hashlib
+    return alg in hashlib.algorithms_guaranteed
